@@ -168,14 +168,7 @@ def _shard(shard_and_stride):
         if sample is None and c.get("roundtrip_ok") and instr.args:
             sample = {"target": name, "bytes": bytes(instr.b).hex(), "text": _txt(instr)}
         for v in vs:
-            k = (len(instr.b), bytes(instr.b))
-            cur = best.get(v["sig"])
-            if cur is None:
-                best[v["sig"]] = [k, v, 1]
-            else:
-                cur[2] += 1
-                if k < cur[0]:
-                    cur[0], cur[1] = k, v
+            g.note_best(best, v, (len(instr.b), bytes(instr.b)))
     keys = stats.pop("_keys", [])
     return name, shard[1], stats, dict(counters), best, sample, keys
 
